@@ -171,7 +171,22 @@ def choose_order(rng, qs, default, used):
 
 
 def export(rng, circuit, qorder, precision, version, force=None):
-    """Obtain the text through one of the public entry points."""
+    """Obtain the text through one of the public entry points.
+
+    The exporter's own refusal of a classically controlled operation whose sub-operation has no direct QASM
+    form ("Cannot output operation as QASM: cirq.ClassicallyControlledOperation(...)") is a rejection, not an
+    alteration: the case is counted as an expected rejection."""
+    from vf.worker import Reject
+
+    try:
+        return _export_impl(rng, circuit, qorder, precision, version, force)
+    except ValueError as e:
+        if str(e).startswith("Cannot output operation as QASM: cirq.ClassicallyControlledOperation("):
+            raise Reject("classically-controlled-subop-without-qasm-form")
+        raise
+
+
+def _export_impl(rng, circuit, qorder, precision, version, force=None):
     import cirq
 
     header = None
